@@ -56,6 +56,9 @@ def _deepsym(x, depth=2):
 
 
 OPAQUE = "<sym>"
+# decimal rendering of symbolic ints inside f-strings / % / str(): off by default
+# (diagnostic messages only); harnesses of serialisers switch it on
+RENDER_SINT = False
 
 
 def _to_sseq(x):
@@ -120,7 +123,7 @@ def m_str(x="", *a):
             return x.decode(*a)
         return OPAQUE
     if isinstance(x, SInt):
-        return sint_to_str(x)
+        return sint_to_str(x) if RENDER_SINT else OPAQUE
     return str(x, *a)
 
 
